@@ -11,6 +11,7 @@
    theorems are about `fixed`, the `_before_fix` lemmas about the other settings. *)
 From Coq Require Import List NArith ZArith Bool.
 Import ListNotations.
+Require Export MV.C11.Wire.
 Open Scope N_scope.
 
 Definition bytes := list N.
@@ -30,26 +31,90 @@ Fixpoint varint_fuel (fuel : nat) (n : N) : bytes :=
 Definition varint (n : N) : bytes := varint_fuel (N.to_nat (N.size n)) n.
 (* encode_length_delimited *)
 Definition enc (body : bytes) : frame := varint (len body) ++ body.
-(* a length-delimited field with a one-byte tag (field numbers < 16) *)
-Definition pb_len (field : N) (s : bytes) : bytes := (field * 8 + 2) :: varint (len s) ++ s.
+(* protobuf fields with a one-byte tag (field numbers < 16), as prost writes them *)
+Fixpoint le_bytes (k : nat) (n : N) : bytes :=
+  match k with O => [] | S k' => n mod 256 :: le_bytes k' (n / 256) end.
+Definition enc_field (fv : N * wv) : bytes :=
+  match snd fv with
+  | VInt n => (fst fv * 8) :: varint n
+  | V64 n => (fst fv * 8 + 1) :: le_bytes 8 n
+  | VLen s => (fst fv * 8 + 2) :: varint (len s) ++ s
+  | V32 n => (fst fv * 8 + 5) :: le_bytes 4 n
+  end.
+Definition enc_fields (l : list (N * wv)) : bytes := flat_map enc_field l.
+(* a proto3 string field is omitted when empty *)
+Definition opt_str (f : N) (s : bytes) : list (N * wv) :=
+  match s with [] => [] | _ => [(f, VLen s)] end.
+Definition opt_int (f : N) (n : N) : list (N * wv) := if n =? 0 then [] else [(f, VInt n)].
 
 Record meta := mkMeta { m_type : N; m_unit : option bytes; m_desc : option bytes }.
 
 (* convert_metadata_to_protobuf_encoded: proto3 scalars are omitted when default, oneof members
    are always written *)
-Definition enc_meta (name : bytes) (m : meta) : frame :=
-  let body :=
-    (match name with [] => [] | _ => pb_len 1 name end) ++
-    (if m_type m =? 0 then [] else [16; m_type m]) ++
-    (match m_unit m with Some u => pb_len 3 u | None => [] end) ++
-    (match m_desc m with Some d => pb_len 4 d | None => [] end) in
-  enc (pb_len 1 body).
+Definition meta_fields (name : bytes) (m : meta) : list (N * wv) :=
+  opt_str 1 name ++ opt_int 2 (m_type m) ++
+  (match m_unit m with Some u => [(3, VLen u)] | None => [] end) ++
+  (match m_desc m with Some d => [(4, VLen d)] | None => [] end).
+Definition meta_body (name : bytes) (m : meta) : bytes :=
+  enc_fields [(1, VLen (enc_fields (meta_fields name m)))].      (* Event { metadata = 1 } *)
+Definition enc_meta (name : bytes) (m : meta) : frame := enc (meta_body name m).
+
+Fixpoint bytes_eqb (a b : bytes) : bool :=
+  match a, b with
+  | [], [] => true
+  | x :: r, y :: r' => (x =? y) && bytes_eqb r r'
+  | _, _ => false
+  end.
+
+(* convert_metric_to_protobuf_encoded *)
+Inductive mop :=
+| IncrementCounter (v : N) | SetCounter (v : N)
+| IncrementGauge (bits : N) | DecrementGauge (bits : N) | SetGauge (bits : N) | RecordHistogram (bits : N).
+Definition op_field (o : mop) : N * wv :=
+  match o with
+  | IncrementCounter v => (4, VInt v) | SetCounter v => (5, VInt v)
+  | IncrementGauge b => (6, V64 b) | DecrementGauge b => (7, V64 b)
+  | SetGauge b => (8, V64 b) | RecordHistogram b => (9, V64 b)
+  end.
+(* the inputs: key name, labels in the key's order, operation *)
+Record mitem := mkItem { mi_name : bytes; mi_labels : list (bytes * bytes); mi_op : mop }.
+
+(* key.labels().collect::<BTreeMap<_, _>>(): ordered by key (bytewise), a later label with an
+   equal key replaces the value *)
+Fixpoint bytes_ltb (a b : bytes) : bool :=
+  match a, b with
+  | [], [] => false
+  | [], _ :: _ => true
+  | _ :: _, [] => false
+  | x :: r, y :: r' => if x <? y then true else if y <? x then false else bytes_ltb r r'
+  end.
+Fixpoint bt_insert (k v : bytes) (l : list (bytes * bytes)) : list (bytes * bytes) :=
+  match l with
+  | [] => [(k, v)]
+  | (k', v') :: r =>
+    if bytes_ltb k k' then (k, v) :: l
+    else if bytes_eqb k k' then (k', v) :: r
+    else (k', v') :: bt_insert k v r
+  end.
+Definition btree_of (labels : list (bytes * bytes)) : list (bytes * bytes) :=
+  fold_left (fun m kv => bt_insert (fst kv) (snd kv) m) labels [].
+
+Definition label_fields (kv : bytes * bytes) : list (N * wv) := opt_str 1 (fst kv) ++ opt_str 2 (snd kv).
+(* prost_types::Timestamp { seconds = 1, nanos = 2 } from SystemTime::now() (after 1970) *)
+Definition ts_fields (secs nanos : N) : list (N * wv) := opt_int 1 secs ++ opt_int 2 nanos.
+Definition metric_fields (name : bytes) (secs nanos : N) (labels : list (bytes * bytes)) (o : mop)
+  : list (N * wv) :=
+  opt_str 1 name ++ [(2, VLen (enc_fields (ts_fields secs nanos)))] ++
+  map (fun kv => (3, VLen (enc_fields (label_fields kv)))) labels ++ [op_field o].
+Definition metric_body (i : mitem) (secs nanos : N) : bytes :=
+  enc_fields [(2, VLen (enc_fields (metric_fields (mi_name i) secs nanos (btree_of (mi_labels i)) (mi_op i))))].
+Definition enc_metric (i : mitem) (secs nanos : N) : frame := enc (metric_body i secs nanos).
 
 (* ---------------------------------------------------------------- per-client write machine *)
 Inductive wres := Wrote (n : N) | WouldBlock | Interrupted | WErr.
 
-Record fixes := mkFixes { fix_cap : bool; fix_dec : bool; fix_intr : bool; fix_block : bool }.
-Definition fixed := mkFixes true true true true.
+Record fixes := mkFixes { fix_cap : bool; fix_dec : bool; fix_intr : bool; fix_block : bool; fix_zero : bool }.
+Definition fixed := mkFixes true true true true true.
 
 Record client := mkClient {
   wbuf : option bytes;      (* remainder of a partially written frame *)
@@ -117,6 +182,9 @@ Record state := mkState {
 
 Definition usize_max : N := 18446744073709551615.
 Definition blimit (limit : option N) : N := match limit with Some n => n | None => usize_max end.
+(* build(): after the fix a configured size of zero is raised to one *)
+Definition lim_of (F : fixes) (limit : option N) : N :=
+  blimit (if fix_zero F then match limit with Some n => Some (N.max n 1) | None => None end else limit).
 
 Inductive outcome := Running (s : state) | Panicked.
 
@@ -125,7 +193,7 @@ Inductive outcome := Running (s : state) | Panicked.
 Definition st0 : state := mkState [] [] 0%Z false 2 [].
 Definition init (F : fixes) (limit : option N) : outcome :=
   if fix_cap F then Running st0
-  else if blimit limit * 32 <=? 9223372036854775807 then Running st0 else Panicked.
+  else if lim_of F limit * 32 <=? 9223372036854775807 then Running st0 else Panicked.
 
 Definition increment_clients (s : state) : state :=
   mkState (clients s) (metadata s) (client_count s + 1)%Z true (next_token s) (gone s).
@@ -134,12 +202,6 @@ Definition decrement_clients (s : state) : state :=
   mkState (clients s) (metadata s) (count - 1)%Z
           (if (count =? 1)%Z then false else should_send s) (next_token s) (gone s).
 
-Fixpoint bytes_eqb (a b : bytes) : bool :=
-  match a, b with
-  | [], [] => true
-  | x :: r, y :: r' => (x =? y) && bytes_eqb r r'
-  | _, _ => false
-  end.
 
 Fixpoint lookup {A} (t : token) (l : list (token * A)) : option A :=
   match l with
@@ -250,9 +312,10 @@ Definition remove_client (s : state) (t : token) : state :=
 
 Definition step_wake (F : fixes) (limit : option N) (s : state) (metas : list meta_item)
            (frames : list frame) (ws : list (token * list wres)) : option state :=
-  let lim := blimit limit in
-  (* the receive loop stops taking messages once buffered_pmsgs.len() >= buffer_limit *)
-  if lim <? len frames then None else
+  let lim := lim_of F limit in
+  (* the receive loop stops taking messages once buffered_pmsgs.len() >= buffer_limit; with a
+     limit of zero it takes nothing at all (and the channel accepts nothing) *)
+  if (lim <? len frames) || ((lim =? 0) && negb (len metas =? 0)) then None else
   let md := fold_left (fun md '(n, ty, u, d) => meta_insert n ty u d md) metas (metadata s) in
   let s1 := mkState (clients s) md (client_count s) (should_send s) (next_token s) (gone s) in
   match frames with
